@@ -4,7 +4,7 @@
    CPython facts used as hypotheses, not proved here: for 1e6 <= d < 1e16 repr(d) has the shape
    D D{6,} '.' D+ with a non-zero first digit (fixed_repr); float(repr x) = x; float() is a function
    of the number a literal denotes.  *)
-From V Require Import lib.PyBase model.Utils model.Decimal proofs.UtilsProofs.
+From V Require Import lib.PyBase model.Utils model.Decimal proofs.UtilsProofs model.LeLabels proofs.LeLabelsProofs.
 Open Scope N_scope.
 
 (* every rewritten rendering denotes the same number as repr(d) *)
@@ -50,6 +50,45 @@ Theorem C13_canonical_orig_refuted :
   exists e ds, exp_text_orig e = CH_e :: PLUS :: ds /\ ~ two_digit_min e ds.
 Proof. exact exp_text_orig_not_canonical. Qed.
 Print Assumptions C13_canonical_orig_refuted.
+
+(* multiprocess collector (model/LeLabels.v): label sets of one histogram may have different bucket layouts; every
+   label set exposed has, position for position, the renderings of ITS OWN bounds, each with the count of that bound
+   (cumulative when accumulating) *)
+Theorem C13_le_per_label_set : forall (A : Type) (acc : bool) (sets : list (A * layout)) l out,
+  In (l, out) (mp_le_samples acc sets) ->
+  exists bs, In (l, bs) sets
+    /\ map fst out = map (fun bv => go_string (fst bv)) bs
+    /\ map snd out = (if acc then prefix_sums 0 (map snd bs) else map snd bs).
+Proof. exact mp_le_own_bounds. Qed.
+Print Assumptions C13_le_per_label_set.
+
+Theorem C13_le_label_sets_kept : forall (A : Type) (acc : bool) (sets : list (A * layout)),
+  map fst (mp_le_samples acc sets) = map fst sets.
+Proof. exact mp_le_label_sets. Qed.
+Print Assumptions C13_le_label_sets_kept.
+
+(* two buckets of one exposed label set that share a le label come from bounds with the same rendering
+   (hence, by C13_injective, from the same number) *)
+Theorem C13_le_distinct_in_label_set : forall (A : Type) (acc : bool) (sets : list (A * layout)) l out i j le n1 n2,
+  In (l, out) (mp_le_samples acc sets) ->
+  nth_error out i = Some (le, n1) -> nth_error out j = Some (le, n2) ->
+  exists bs b1 v1 b2 v2, In (l, bs) sets /\ nth_error bs i = Some (b1, v1) /\ nth_error bs j = Some (b2, v2)
+    /\ go_string b1 = go_string b2.
+Proof. exact mp_le_distinct. Qed.
+Print Assumptions C13_le_distinct_in_label_set.
+
+(* the design that renders the labels once per histogram (from the first label set merged) and reuses them by
+   position is refuted: a label set whose top bucket is 2.5e6 is exposed with le = 1e+06, the rendering of none of
+   its bounds; and with layouts of different length buckets are dropped *)
+Theorem C13_le_shared_refuted :
+  (exists (sets : list (N * layout)) l bs out,
+    In (l, bs) sets /\ In (l, out) (mp_le_samples_shared sets)
+    /\ map fst out <> map (fun bv => go_string (fst bv)) bs
+    /\ exists le, In le (map fst out) /\ ~ In le (map (fun bv => go_string (fst bv)) bs))
+  /\ (exists (sets : list (N * layout)) l bs out,
+    In (l, bs) sets /\ In (l, out) (mp_le_samples_shared sets) /\ (length out < length bs)%nat).
+Proof. exact (conj mp_le_shared_wrong_label mp_le_shared_drops_buckets). Qed.
+Print Assumptions C13_le_shared_refuted.
 
 (* non-vacuity: 12345678900.0 meets the hypotheses and renders as 1.23456789e+10 *)
 Example C13_example :
